@@ -32,6 +32,7 @@ import (
 	"fmt"
 	"math/rand"
 	"os"
+	"runtime"
 	"sort"
 	"strings"
 	"sync"
@@ -363,6 +364,108 @@ func (r *run) raw(name string, ops []M, send func()) {
 	})
 }
 
+// raceNewH makes an EventHandler() call race with a membership change of peer s.P. The event loop
+// is parked inside an eval thunk; the wire stimulus (its frame ends up in the loop's input queue) and
+// the EventHandler() call (its thunk waits at the eval channel) are both submitted; then the loop is
+// released and takes the two in the order its select happens to choose. Both are logged as
+// operations in flight (newhcall ... newh, stim ... step); TLC orders them. For the duration of the
+// step the process runs on one P, so that once released the loop goroutine keeps running until it
+// blocks: whatever it does between the thunk and the caller's return really happens in between.
+// Which order the loop took is observed (handler count seen from inside the loop when the frame is
+// processed) and logged in an informational "raceorder" line.
+func (r *run) raceNewH(s step) {
+	if r.handlers[s.H] != nil {
+		r.emit(M{"e": "skip", "why": "handler exists " + s.H})
+		return
+	}
+	p := s.P
+	r.bringUp(p)
+	if r.abort != "" {
+		return
+	}
+	variant := s.M
+	if variant == "" {
+		if r.member[p] {
+			variant = []string{"unsub", "unsub", "closeOut"}[r.rng.Intn(3)]
+		} else {
+			variant = "sub"
+		}
+	}
+	first := s.C // which of the two is submitted first
+	if first == "" {
+		first = []string{"change", "handler"}[r.rng.Intn(2)]
+	}
+	f := r.w.Fakes[p]
+	r.w.Guard()
+	old := runtime.GOMAXPROCS(1)
+	defer runtime.GOMAXPROCS(old)
+	_, _, before := r.truth()
+
+	parked, release := make(chan struct{}), make(chan struct{})
+	go r.w.NUT.VerifEval(func() { close(parked); <-release })
+	<-parked
+
+	order := ""
+	r.w.Rec.Hook = func(ev world.M) {
+		if ev["k"] == "Recv" && ev["p"] == p && order == "" {
+			if st := r.w.NUT.VerifSnapshotInLoop(); st != nil && st.MyTopics[topic].EvtHandlers > before {
+				order = "handler-first"
+			} else {
+				order = "change-first"
+			}
+		}
+	}
+	created := make(chan struct{})
+	mkHandler := func() {
+		r.emit(M{"e": "newhcall", "h": s.H})
+		go func() {
+			defer close(created)
+			h, err := r.tp.EventHandler()
+			if err != nil {
+				r.emit(M{"e": "skip", "why": "EventHandler: " + err.Error()})
+				return
+			}
+			r.mu.Lock()
+			r.handlers[s.H] = h
+			r.mu.Unlock()
+			r.emit(M{"e": "newh", "h": s.H})
+		}()
+		synctest.Wait() // the call is now waiting at the eval channel
+	}
+	change := func() {
+		v := variant == "sub"
+		r.emit(M{"e": "stim", "a": "race-" + variant, "ops": []M{op(p, v)}})
+		switch variant {
+		case "closeOut":
+			f.CloseOut()
+			r.conn[p] = "noout"
+		default:
+			f.Send(subRPC(v))
+		}
+		r.member[p] = v
+		hnet.Settle(15 * time.Millisecond) // the frame (or the end of the stream) reaches the loop's input queue
+	}
+	if first == "handler" {
+		mkHandler()
+		change()
+	} else {
+		change()
+		mkHandler()
+	}
+	close(release)
+	hnet.Settle(20 * time.Millisecond)
+	r.w.Rec.Hook = nil
+	select {
+	case <-created:
+	default:
+		r.abort = "EventHandler() did not return after the event loop was released"
+	}
+	if order != "" {
+		r.emit(M{"e": "raceorder", "order": order, "first": first, "a": variant})
+	}
+	r.w.Emit(M{"a": "racenewh"})
+}
+
 func (r *run) do(s step) {
 	switch s.A {
 	case "join":
@@ -399,6 +502,8 @@ func (r *run) do(s step) {
 				r.member[o.P] = o.V
 			}
 		})
+	case "racenewh":
+		r.raceNewH(s)
 	case "newh":
 		if r.handlers[s.H] != nil {
 			r.emit(M{"e": "skip", "why": "handler exists " + s.H})
